@@ -429,8 +429,13 @@ def equality_laws(ctx, tz):
 def factory_codes(tz):
     from dateutil.tz import _factories
     W = weakref.WeakValueDictionary
-    return [_factories._TzOffsetFactory.__call__.__code__, _factories._TzStrFactory.__call__.__code__, type(tz.gettz).__call__.__code__,
-            W.get.__code__, W.setdefault.__code__, W.__setitem__.__code__]
+    out = []
+    for f in (type(tz.tzoffset).__call__, type(tz.tzstr).__call__, type(tz.gettz).__call__,
+              W.get, W.setdefault, W.__setitem__, W.__getitem__, W.__contains__):
+        c = getattr(f, '__code__', None)
+        if c is not None and c not in out:
+            out.append(c)
+    return out
 
 
 COUNTER = [0]
